@@ -150,6 +150,21 @@ def run(tier, seed, pid=PID, flavour='plain', n=None, maxpop=2000):
         rt = '%s;BYDAY=%s;BYHOUR=%s;UNTIL=%04d%02d%02dT%02d3000Z' % (rnd.choice(['FREQ=WEEKLY', 'FREQ=WEEKLY', 'FREQ=DAILY']), ','.join(['MO', 'TU', 'WE', 'TH', 'FR', 'SA', 'SU'][w] for w in sorted(set(wds))), ','.join(map(str, hrs)), du.year, du.month, du.day, hu)
         c = fam(nf, (d0.year, d0.month, d0.day, hrs[0], 0, 0), rt); c['until'] = rrgen.inst((du.year, du.month, du.day, hu, 30, 0)); c['maxpop'] = 2000
         cases.append(c); nf += 1
+    # hourly events of zones west of Greenwich (and two east of it) that begin a few hours before a change of the zone's offset and
+    # end, by a UTC UNTIL, a few hours after it: the hours behind the change are bounded like any others
+    for zn in ('America/New_York', 'America/Los_Angeles', 'America/St_Johns', 'America/Sao_Paulo', 'America/Havana', 'Europe/Berlin', 'Australia/Sydney'):
+        z = tzif.read('/usr/share/zoneinfo/' + zn)
+        if z is None: continue
+        trs = [i for i, t in enumerate(z['trans']) if 1262304000 <= t <= 1893456000 and i > 0 and z['offs'][i] != z['offs'][i - 1]]
+        for i in (trs if tier == 'thorough' else rnd.sample(trs, min(len(trs), 5))):
+            T = z['trans'][i]; before = z['offs'][i - 1]
+            back = rnd.choice([2, 5, 9]) * 3600
+            loc = E0 + D.timedelta(seconds=T - back + before)                       # wall-clock time of T - back
+            for k in (rnd.sample(range(0, 10), 3) if tier != 'thorough' else range(0, 10)):
+                ue = E0 + D.timedelta(seconds=T + k * 3600 + 1800)
+                rt = 'FREQ=HOURLY;UNTIL=%s' % ue.strftime('%Y%m%dT%H%M%SZ')
+                c = fam(nf, (loc.year, loc.month, loc.day, loc.hour, loc.minute, loc.second), rt, zn); c['until'] = rrgen.inst((ue.year, ue.month, ue.day, ue.hour, ue.minute, ue.second)); c['maxpop'] = 70
+                cases.append(c); nf += 1
     nsl = vlib.NCPU; per = -(-len(cases) // nsl)
     env_asan = flavour == 'asan'
     if env_asan:
